@@ -373,8 +373,8 @@ def absorb(c, res, traces_key=None):
         c.extra.setdefault('mismatch_signatures', {}).update(res['sig_counts'])
 
 
-def table_check(c, module, cfg, cmd, workers=8, tlc_timeout=900, harness_timeout=3000, args=(), race=False):
-    r = tlc_must_pass(module, cfg, workers=workers, timeout=tlc_timeout, keep=True)
+def table_check(c, module, cfg, cmd, workers=8, tlc_timeout=900, harness_timeout=3000, args=(), race=False, jvm=None):
+    r = tlc_must_pass(module, cfg, workers=workers, timeout=tlc_timeout, keep=True, jvm=jvm)
     c.add_tlc(cfg, r)
     try:
         res = run_harness([cmd, r.dir, c.tier] + list(args), timeout=harness_timeout, race=race)
